@@ -1,7 +1,7 @@
 (* C08: Newton inversion modulo X^l.  For every A with A[0] <> 0 and every l: A * invmodpowx(A,l) = 1 mod X^l
    (thresholds >= 1).  Uses the proved products (mul_r, sqr). *)
 From Coq Require Import List Arith Lia Setoid Morphisms Ring Bool.
-From C08 Require Import Model Spec ProofsBasic ProofsKara ProofsDiv ProofsSqr.
+From C08 Require Import Model Spec ProofsBasic ProofsSum ProofsKara ProofsDiv ProofsSqr.
 Import ListNotations.
 
 Section Newton.
